@@ -14,10 +14,7 @@ fn main() {
     if args[1] == "replay" {
         let s = std::fs::read_to_string(&args[2]).unwrap_or_else(|e| machinery_failure(&format!("{}", e)));
         let v: serde_json::Value = serde_json::from_str(&s).unwrap_or_else(|e| machinery_failure(&format!("{}", e)));
-        match v["engine"].as_str().unwrap_or("") {
-            "kvvmc" => vmc::kvvmc::replay(&v),
-            e => machinery_failure(&format!("no replay for engine {}", e)),
-        }
+        vmc::props::replay(&v);
         return;
     }
     let tier = match args[2].as_str() {
@@ -26,7 +23,13 @@ fn main() {
         _ => usage(),
     };
     let code = match args[1].as_str() {
-        "c16" => vmc::kvvmc::main(tier),
+        "c01" => vmc::props::c01(tier),
+        "c02" => vmc::props::c02(tier),
+        "c03" => vmc::props::c03(tier),
+        "c10" => vmc::props::c10(tier),
+        "c11" => vmc::props::c11(tier),
+        "c16" => vmc::props::c16(tier),
+        x if x.starts_with("dump-") => vmc::props::dump(&x[5..], tier),
         _ => usage(),
     };
     std::process::exit(code)
